@@ -3,10 +3,128 @@ session vs the extracted API model; oracle: completion exactly at k distinct sym
 import vlib, session_check, sessions
 
 
+class GF:
+    def __init__(self, m):
+        self.m, self.q = m, 1 << m
+        poly = 0x13 if m == 4 else 0x11d
+        self.exp, self.log = [0] * (2 * self.q), [0] * self.q
+        x = 1
+        for i in range(self.q - 1):
+            self.exp[i] = x; self.log[x] = i
+            x <<= 1
+            if x >> m:
+                x ^= poly
+        for i in range(self.q - 1, 2 * self.q):
+            self.exp[i] = self.exp[i - (self.q - 1)]
+
+    def mul(self, a, b):
+        return 0 if a == 0 or b == 0 else self.exp[self.log[a] + self.log[b]]
+
+    def inv(self, a):
+        return self.exp[(self.q - 1 - self.log[a]) % (self.q - 1)]
+
+
+def py_inverse(F, A):
+    """independent Gauss-Jordan (augmented matrix, partial pivoting); None if singular"""
+    k = len(A)
+    M = [list(A[i]) + [1 if i == j else 0 for j in range(k)] for i in range(k)]
+    for c in range(k):
+        p = next((r for r in range(c, k) if M[r][c]), None)
+        if p is None:
+            return None
+        M[c], M[p] = M[p], M[c]
+        iv = F.inv(M[c][c])
+        M[c] = [F.mul(iv, x) for x in M[c]]
+        for r in range(k):
+            if r != c and M[r][c]:
+                f = M[r][c]
+                M[r] = [x ^ F.mul(f, y) for x, y in zip(M[r], M[c])]
+    return [row[k:] for row in M]
+
+
+def gen_matrix(rng, F, kmax):
+    k = rng.choice([0, 1, 1, 2, 2, 3, 3, 4, 5, 6, 8, 11, 16]) if rng.chance(2, 3) else rng.rng(0, kmax)
+    q = F.q
+    kind = rng.below(8)
+    A = [[rng.below(q) for _ in range(k)] for _ in range(k)]
+    if kind == 0 and k:                                   # permutation matrix (zero diagonal likely: full pivot search, column unscrambling)
+        perm = list(range(k)); rng.shuffle(perm)
+        A = [[(rng.rng(1, q - 1) if perm[i] == j else 0) for j in range(k)] for i in range(k)]
+    elif kind == 1 and k >= 2:                            # singular: one row is a combination of two others
+        a, b, d = rng.below(k), rng.below(k), rng.below(k)
+        if d not in (a, b):
+            f, g = rng.below(q), rng.below(q)
+            A[d] = [F.mul(f, x) ^ F.mul(g, y) for x, y in zip(A[a], A[b])]
+    elif kind == 2 and k:                                 # zero row or zero column
+        if rng.chance(1, 2):
+            A[rng.below(k)] = [0] * k
+        else:
+            c0 = rng.below(k)
+            for r in A:
+                r[c0] = 0
+    elif kind == 3 and k:                                 # decode-matrix shape: unit rows on the diagonal + dense rows
+        for i in range(k):
+            if rng.chance(2, 3):
+                A[i] = [1 if j == i else 0 for j in range(k)]
+    elif kind == 4 and k:                                 # sparse
+        A = [[(x if rng.chance(1, 4) else 0) for x in row] for row in A]
+    elif kind == 5 and k:                                 # zero diagonal
+        for i in range(k):
+            A[i][i] = 0
+    return k, A
+
+
+def gj_correspondence(c):
+    """the three C copies of the in-place Gauss-Jordan inversion vs the extracted model (GaussJordan.v, proved to return the
+    inverse of every invertible matrix and to fail exactly on singular ones) and vs an independent python inversion"""
+    rng = c.rng
+    F8, F4 = GF(8), GF(4)
+    reqs, meta = [], []
+    for _ in range(400 if c.tier == "quick" else 5000):
+        impl = rng.choice([1, 2, 4])
+        F = F4 if impl == 4 else F8
+        k, A = gen_matrix(rng, F, 24 if c.tier == "quick" else 60)
+        hx = "".join("%02x" % x for row in A for x in row)
+        reqs.append("W %d %d %s" % (impl, k, hx)); meta.append((impl, k, A, hx))
+    exe = vlib.build_c(c.snap, "drv_gj", "drv_gj.c", exclude=("of_reed-solomon_gf_2_8.c",))
+    ans, crashes = vlib.run_driver(exe, reqs, prefix="R")
+    for kx, se in crashes[:4]:
+        c.violation("matrix inversion crashed: %s" % reqs[kx][:120], "gj-crash", {"stream": "gj", "request": reqs[kx][:4000], "stderr": se})
+    try:
+        rc, mout, _ = vlib.sh([vlib.ocaml_model()], input="".join("W %d %d %s\n" % (4 if impl == 4 else 8, k, hx) for (impl, k, A, hx) in meta), timeout=3000)
+        ml = mout.splitlines()
+    except vlib.BuildError as e:
+        c.proof_failed.append({"model_build": str(e)[-1500:]}); ml = []
+    n_ok = 0
+    for i, (impl, k, A, hx) in enumerate(meta):
+        a = ans[i]
+        if a.startswith(("CRASH", "SKIPPED")):
+            continue
+        F = F4 if impl == 4 else F8
+        toks = a.split()
+        code = toks[1]; got = toks[2] if len(toks) > 2 else ""
+        want = py_inverse(F, A)
+        c.dist("impl%d" % impl); c.dist("singular" if want is None else "invertible")
+        if (code == "1") != (want is None) or (want is not None and got != "".join("%02x" % x for row in want for x in row)):
+            c.violation("impl %d k=%d: the C returned error=%s %s, the matrix is %s" % (impl, k, code, got[:60], "singular" if want is None else "invertible with another inverse"),
+                        "gj-wrong", {"stream": "gj", "request": reqs[i][:4000], "c_answer": a[:4000]})
+            continue
+        mo = ml[i].split() if i < len(ml) else []
+        if len(mo) < 2 or mo[1] != code or (code == "0" and (mo[2] if len(mo) > 2 else "") != got):
+            c.proof_failed.append({"correspondence": "gj", "request": reqs[i][:2000], "c": a[:2000], "model": (ml[i] if i < len(ml) else "")[:2000]})
+            break
+        n_ok += 1
+    c.cov["gj_matrices_agreeing"] = n_ok
+    return len(reqs), n_ok
+
+
 def run(c):
     c.prove(["Properties_C02.v"])
     q = c.tier == "quick"
     session_check.run_sessions(c, (sessions.RS28, sessions.RS2M), {"C02", "C01"}, 250 if q else 3000, 1500 if q else 20000, big=not q)
+    n_gj, ok_gj = gj_correspondence(c)
+    c.cov["evaluations"] += n_gj
+    c.cov["traces_validated_against_impl"] = c.cov.get("traces_validated_against_impl", 0) + ok_gj
     c.cov["partial"] = ("algebraic half (any k rows of the systematic Vandermonde generator invertible; Gauss-Jordan finds the inverse) is a hypothesis of the API theorems; "
                         "it is exercised on the C by every received subset of the small codes and sampled k up to 200")
     c.trusted = vlib.BASE_TRUST + ["RSApi.v: hand-written mirror of the decode_with_new_symbol/set_available_symbols/finish_decoding logic shared by both RS codecs",
